@@ -119,9 +119,16 @@ impl<L: Localize> OpeningHours<L> {
         (self.expr.rules)
             .iter()
             .map(|rule| {
-                if rule.time_selector.is_immutable_full_day()
-                    || !rule.day_selector.filter(date, &self.ctx)
-                {
+                // A rule that matched yesterday may still contribute to today's schedule with
+                // a time span running past midnight: tomorrow has to be evaluated too.
+                let matched_today_or_yesterday = || {
+                    rule.day_selector.filter(date, &self.ctx)
+                        || date
+                            .pred_opt()
+                            .is_some_and(|prev| rule.day_selector.filter(prev, &self.ctx))
+                };
+
+                if rule.time_selector.is_immutable_full_day() || !matched_today_or_yesterday() {
                     rule.day_selector.next_change_hint(date, &self.ctx)
                 } else {
                     date.succ_opt()
